@@ -57,6 +57,9 @@ def _geoms(tier):
     # 4096-byte sectors, size an exact multiple of the block size (the last sector is the last sector of the last block)
     q.append(dict(bs=MB, sec=4096, W=3, cut=0, at=0, total=None, seqs=[7, 6], regions=["meta", "bat"], meta_mb=2, bat_mb=3,
                   alpha="small"))
+    # payload starting directly behind the 1 MiB header section, metadata region and BAT behind the payload
+    q.append(dict(bs=MB, sec=512, W=3, cut=512, at=0, total=None, seqs=[7, 6], regions=["meta", "bat"], meta_mb=8, bat_mb=9,
+                  base_mb=1, alpha="small"))
     # one request over more than 128 MiB of a single absent 256 MiB block
     q.append(dict(bs=256 * MB, sec=512, W=3, cut=0, at=0, total=None, seqs=[7, 6], regions=["meta", "bat"], meta_mb=2, bat_mb=3,
                   alpha="small", longrun=True))
@@ -164,7 +167,7 @@ def run_case(case, ctx):
     size = total * bs - g["cut"]
     buf = bootstrap.bufsize()
     img = B.build(states, slots, bs, sec, size, seqs=tuple(g["seqs"]), regions=tuple(g["regions"]), meta_mb=g["meta_mb"],
-                  bat_mb=g["bat_mb"], total_blocks=total, window_at=at, leave_allocated=bool(g.get("leave")),
+                  bat_mb=g["bat_mb"], base_mb=g.get("base_mb"), total_blocks=total, window_at=at, leave_allocated=bool(g.get("leave")),
                   stale_offsets=bool(g.get("stale")))
     disk = B.model(states, bs, sec, size, total_blocks=total, window_at=at)
     ctx.model([g, states, slots])
